@@ -111,7 +111,7 @@ class VM:
     def __init__(self, mir, alg, inst=None, timeout_ms=120000, max_call_depth=64):
         self.mir = mir; self.alg = alg; self.inst = inst or {}
         self.models = []            # (compiled regex, handler)
-        self.solver = z3.Solver(); self.solver.set('timeout', timeout_ms)
+        self.solver = z3.Solver(); self.solver.set('timeout', min(timeout_ms, 30000)); self.retry_timeout_ms = max(timeout_ms, 60000)
         self.nq = 0; self.nstmt = 0; self.solver_time = 0.0; self.max_stmts = None
         self.fns_used = set(); self.models_used = set()
         self.enums = mir.load_enums()
@@ -144,7 +144,9 @@ class VM:
         self.solver_time += time.time() - t0
         if r == z3.unknown:
             if self.unknown_is_feasible: self.n_unknown_feasible += 1; return True
-            raise VMError('solver returned unknown on a feasibility query')
+            # a loaded machine or an unlucky seed: one retry with a fresh solver, another seed and a much longer limit before giving up
+            t0 = time.time(); s2 = z3.Solver(); s2.set('timeout', self.retry_timeout_ms); s2.set('random_seed', 11); s2.add(*conds2); r = s2.check(); self.solver_time += time.time() - t0
+            if r == z3.unknown: raise VMError('solver returned unknown on a feasibility query')
         return r == z3.sat
 
     def branch(self, m, cond):
